@@ -800,6 +800,8 @@ def write_ev(prop, tier, seed, results, samples, xcheck, build_s, wall, violatio
     if 'L' in extra_ev:
         kcov = cov
         cov = dict(extra_ev['L'].get('coverage', {}))
+        if 'mir' in kcov:
+            cov['mir'] = kcov['mir']
         cov['kani_kernels'] = dict(harnesses=kcov['harnesses'], harnesses_run=kcov['harnesses_run'],
                                    harnesses_passed=kcov['harnesses_passed'], solver_s=kcov['solver_s'])
         cov['known_findings_reproduced'] = [kf['id'] for _, kf in known_hits]
